@@ -129,5 +129,5 @@ package pebble
 //@   modifies (*fs).dHas, (*fs).dCur
 //@ func SaveCurrentDBDirName#sync
 //@   requires fs != nil
-//@   ensures [C04.save.synced] result == nil ==> world.syncedPath[pjoin(dir, "current.updating")]
+//@   ensures [C04.save.synced+C08] result == nil ==> world.syncedPath[pjoin(dir, "current.updating")]
 //@   modifies fs.vHas, fs.dHas, fs.dCur, world.syncedPath, family(G_any_sdata), family(G_any_slen), family(G_any_nmsg), family(G_any_msg)
